@@ -27,6 +27,8 @@ func checkC11(c *Ctx) {
 	c.Rule("R11.3", "shared budget: With copies counts/tick/first/thereafter/hook; constructor allocates counts once and defaults the hook", 2)
 	c.Rule("R11.4", "the modulo is evaluated only under thereafter != 0", 1)
 	c.Rule("R11.10", "entries reach the sampler already stamped with the logger's clock", 1)
+	c.Rule("R11.11", "what the sampler keyed its decision on is what is written: nothing re-assigns a checked entry's message, level, time or name", 1)
+	c.Rule("R11.12", "level queries (Enabled, Level, V) never reach Core.Check: only logging an entry costs budget and calls the hook", 1)
 	c.Rule("R11.5", "bucket key: level offset and full-message hash", 2)
 	c.Rule("R11.7", "admission predicate has exactly the documented form", 2)
 	c.Rule("R11.8", "window protocol: entry timestamp, single comparison, same constant, CAS from the loaded value, no wall clock", 4)
@@ -380,6 +382,8 @@ func checkC11(c *Ctx) {
 	c11Shared(c)
 	c11Config(c)
 	c11Stamped(c, "R11.10")
+	c11CheckedMessageFinal(c, "R11.11")
+	c11QueriesNeverCheck(c, "R11.12")
 	// ---------------- R11.5 ----------------
 	c11Key(c, minL)
 	// ---------------- R11.8 ----------------
@@ -917,4 +921,79 @@ func samplerCoreField(c *Ctx) string {
 		}
 	}
 	return "Core"
+}
+
+// c11CheckedMessageFinal: what the sampler keyed its decision on is what gets written. Outside the methods of
+// CheckedEntry itself, nothing assigns the Message, Level, Time or LoggerName of a checked entry (or its Entry as a
+// whole): a front end that has the core check one message and then writes another makes entries share, or escape, the
+// budget of the message they are logged with.
+func c11CheckedMessageFinal(c *Ctx, rule string) {
+	ce := c.Named(CorePath, "CheckedEntry")
+	if !c.Anchor(rule, "zapcore.CheckedEntry", ce != nil) {
+		return
+	}
+	keyed := map[string]bool{"Message": true, "Level": true, "Time": true, "LoggerName": true}
+	isCE := func(t types.Type) bool {
+		n, _ := types.Unalias(deref(t)).(*types.Named)
+		return n != nil && n.Obj() == ce.Obj()
+	}
+	var bad []string
+	n := 0
+	c.EachRootFunc(func(fn *ssa.Function) {
+		if rn := RecvNamed(fn); rn != nil && rn.Obj() == ce.Obj() {
+			return
+		}
+		for _, g := range WithClosures(fn) {
+			AllInstrs(g, func(i ssa.Instruction) {
+				st, ok := i.(*ssa.Store)
+				if !ok {
+					return
+				}
+				fa, ok := st.Addr.(*ssa.FieldAddr)
+				if !ok {
+					return
+				}
+				f := fieldName(fa.X.Type(), fa.Field)
+				switch {
+				case isCE(fa.X.Type()) && f == "Entry":
+					if IsFresh(fa.X) {
+						return
+					}
+					n++
+					bad = append(bad, FuncKey(g)+": "+Desc(st.Addr)+" = "+Desc(st.Val)+" at "+c.Pos(st.Pos()))
+				case keyed[f]:
+					in, ok := fa.X.(*ssa.FieldAddr)
+					if ok && isCE(in.X.Type()) && fieldName(in.X.Type(), in.Field) == "Entry" {
+						n++
+						bad = append(bad, FuncKey(g)+": "+Desc(st.Addr)+" = "+Desc(st.Val)+" at "+c.Pos(st.Pos()))
+					}
+				}
+			})
+		}
+	})
+	c.Check(len(bad) == 0, rule, CorePath+".CheckedEntry", "keyed-parts-final", ce.Obj().Pos(), "outside CheckedEntry's own methods nothing assigns the Message, Level, Time, LoggerName (or the whole Entry) of a checked entry: %v", bad)
+}
+
+// c11QueriesNeverCheck: asking whether a level is enabled decides no entry: no Enabled / Level / V method of the module
+// reaches Core.Check (every Check is a sampling decision: it counts against a budget and calls the hook).
+func c11QueriesNeverCheck(c *Ctx, rule string) {
+	n := 0
+	var bad []string
+	c.EachRootFunc(func(fn *ssa.Function) {
+		if fn.Parent() != nil || fn.Signature.Recv() == nil {
+			return
+		}
+		switch fn.Name() {
+		case "Enabled", "Level", "V":
+		default:
+			return
+		}
+		n++
+		for _, cl := range CallsDeep(fn) {
+			if IsCallTo(cl, "(go.uber.org/zap/zapcore.Core).Check") {
+				bad = append(bad, FuncKey(fn)+" at "+c.Pos(cl.Pos()))
+			}
+		}
+	})
+	c.Check(len(bad) == 0 && n >= 10, rule, "level queries", "never-check", token.NoPos, "%d Enabled / Level / V methods examined (helpers inline): none of them calls Core.Check: %v", n, bad)
 }
